@@ -17,7 +17,7 @@
    The reference Gauss-Legendre rule (np.polynomial.legendre.leggauss) is an argument of
    every definition: a list of (node, weight); the table numpy produces is dumped at run
    time by translate/leggauss.py.  Arrays are lists, numpy index arithmetic is nat. *)
-From Coq Require Import QArith Qcanon Qcabs ZArith List Bool Arith.
+From Coq Require Import QArith Qabs Qcanon Qcabs ZArith List Bool Arith.
 From Verif.lib Require Import Bsp.
 Import ListNotations.
 Open Scope Qc_scope.
@@ -252,8 +252,58 @@ Fixpoint increasing (l : list Qc) : bool :=
   | _ => true
   end.
 Definition rule_moment (r : rule) (k : nat) : Qc := sumf (fun xw => snd xw * qpow (fst xw) k) r.
+(* all moments 0..n-1 at once: per node the list w, w x, w x^2, ... (one product per entry) *)
+Fixpoint wpows (x acc : Qc) (n : nat) : list Qc :=
+  match n with O => [] | S n' => acc :: wpows x (acc * x) n' end.
+Fixpoint vadd (a b : list Qc) : list Qc :=
+  match a, b with x :: a', y :: b' => (x + y) :: vadd a' b' | _, _ => [] end.
+Definition moments (r : rule) (n : nat) : list Qc :=
+  fold_right (fun xw acc => vadd (wpows (fst xw) (snd xw) n) acc) (repeat 0 n) r.
 Definition rule_ok (defect : Qc) (n : nat) (r : rule) : bool :=
   Nat.eqb (length r) n
   && forallb (fun xw => qltb (- (1)) (fst xw) && qltb (fst xw) 1 && qltb 0 (snd xw)) r
   && increasing (map fst r)
-  && forallb (fun k => close defect (rule_moment r k) (moment_exact k)) (seq 0 (2 * n)).
+  && forallb (fun km => close defect (snd km) (moment_exact (fst km)))
+             (combine (seq 0 (2 * n)) (moments r (2 * n))).
+
+(* ---- polynomials (weight functions / right-hand sides of the correspondence run) *)
+Fixpoint peval (c : list Qc) (x : Qc) : Qc :=
+  match c with [] => 0 | a :: c' => a + x * peval c' x end.
+Fixpoint pint (k : nat) (c : list Qc) : Qc :=      (* sum_i c_i * int_{-1}^{1} x^(k+i) *)
+  match c with [] => 0 | a :: c' => a * moment_exact k + pint (S k) c' end.
+Fixpoint l1norm (c : list Qc) : Qc := match c with [] => 0 | a :: c' => Qcabs a + l1norm c' end.
+
+(* the Gram form as a matrix, one evaluation of each collocation row per quadrature point *)
+Definition gram_ref_mat (kv1 : list Qc) (p1 : nat) (kv2 : list Qc) (p2 : nat) (du dv : nat)
+  (q : list (Qc * Qc)) : list (list Qc) :=
+  let rows := map (fun xw => (snd xw, colloc_row kv2 p2 dv (fst xw), colloc_row kv1 p1 du (fst xw))) q in
+  map (fun i => map (fun j =>
+        sumf (fun r => fst (fst r) * (nth i (snd (fst r)) 0 * nth j (snd r) 0)) rows)
+        (seq 0 (numdofs kv1 p1))) (seq 0 (numdofs kv2 p2)).
+Definition mat_eqb (A B : list (list Qc)) : bool := all2 (all2 qeqb) A B.
+Definition weighted (wf : Qc -> Qc) (q : list (Qc * Qc)) : list (Qc * Qc) :=
+  map (fun xw => (fst xw, snd xw * wf (fst xw))) q.
+
+(* ---- the same check in scaled integer arithmetic (fast for q up to 13) ---
+   a table with common denominator D: node X/D, weight W/D *)
+Definition zrule := (positive * list (Z * Z))%type.
+Definition rule_of_z (t : zrule) : rule :=
+  map (fun XW => (Q2Qc (fst XW # fst t), Q2Qc (snd XW # fst t))) (snd t).
+Fixpoint zwpows (x acc : Z) (n : nat) : list Z :=
+  match n with O => [] | S n' => acc :: zwpows x (acc * x)%Z n' end.
+Fixpoint zvadd (a b : list Z) : list Z :=
+  match a, b with x :: a', y :: b' => (x + y)%Z :: zvadd a' b' | _, _ => [] end.
+(* M_k = sum_i W_i X_i^k, so that the k-th moment is M_k / D^(k+1) *)
+Definition zmoments (t : zrule) (n : nat) : list Z :=
+  fold_right (fun XW acc => zvadd (zwpows (fst XW) (snd XW) n) acc) (repeat 0%Z n) (snd t).
+Fixpoint zincreasing (l : list Z) : bool :=
+  match l with a :: ((b :: _) as t) => (a <? b)%Z && zincreasing t | _ => true end.
+Fixpoint ppow (d : positive) (k : nat) : positive := match k with O => 1%positive | S k' => (d * ppow d k')%positive end.
+Definition zrule_ok (defect : Q) (n : nat) (t : zrule) : bool :=
+  let D := fst t in
+  Nat.eqb (length (snd t)) n
+  && forallb (fun XW => (- Zpos D <? fst XW)%Z && (fst XW <? Zpos D)%Z && (0 <? snd XW)%Z) (snd t)
+  && zincreasing (map fst (snd t))
+  && forallb (fun kM =>
+       Qle_bool (Qabs ((snd kM # ppow D (S (fst kM))) - (if Nat.even (fst kM) then 2 # Pos.of_nat (S (fst kM)) else 0))%Q) defect)
+       (combine (seq 0 (2 * n)) (zmoments t (2 * n))).
